@@ -28,7 +28,7 @@ RULE = (
     "path Q holds P's former bytes) and/or delete all / the moved objects from the store and re-create the "
     "odb object on the same store path between the two builds (one process, same store location); the store "
     "oracle re-hashes every object. Linked-checkout history (both store classes, symlink / hardlink, some copy; "
-    "4 fixed + 4 quick / 24 thorough generated): round-trip a tree, check it out with the store's link type, add "
+    "4 fixed + 4 quick / 16 thorough generated): round-trip a tree, check it out with the store's link type, add "
     "one regular file to the checkout, stage + transfer the checkout into the SAME store; after the transfer every "
     "object that was in the store must still be there with the same bytes, the workspace unchanged, the transfer "
     "without failures, and the old and the new tree must both check out byte-identically (object and index level). "
@@ -976,7 +976,7 @@ CORPUS = [
 
 def run(ctx):
     quick = ctx.tier == "quick"
-    n_trees = ctx.n(20, 60)
+    n_trees = ctx.n(20, 45)
     n_cfg = 3 if quick else 12
     max_depth, max_files = (4, 14) if quick else (6, 60)
     cases = [dict(c) for c in CORPUS]
@@ -1018,7 +1018,7 @@ def run(ctx):
         case = {"files": {r: b.hex() for r, b in files.items()}, "dirs": dirs, "configs": pick_configs(ctx, 1),
                 "dvcignore": where + ".dvcignore"}
         ignore_case(ctx, case, items_obj)
-    for i in range(ctx.n(8, 40)):
+    for i in range(ctx.n(8, 30)):
         data = ctx.rng.choice(CONTENT_POOL) if ctx.rng.random() < 0.6 else ctx.rng.randbytes(ctx.rng.randint(1, 200))
         case = {"name": ctx.rng.choice(NAME_POOL), "data": data.hex(), "configs": pick_configs(ctx, 2 if quick else 12)}
         file_case(ctx, case, items_file)
@@ -1032,7 +1032,7 @@ def run(ctx):
         {"files": {"a": "6161", "d/x": "00010203", "d/z": "7a"}, "dirs": ["d"],
          "restage": {"config": ["base", "hardlink", True], "edits": [[1, "move"], [0, "move"]], "wipe": "moved"}},
     ]
-    for i in range(ctx.n(10, 48)):
+    for i in range(ctx.n(10, 36)):
         files, dirs = gen_tree(ctx.rng, 3, 8, 2)
         if not any(files.values()):
             continue
@@ -1059,7 +1059,7 @@ def run(ctx):
                                      "data": b"brand new data".hex()}}
         for cls, link in (("base", "symlink"), ("base", "hardlink"), ("local", "symlink"), ("local", "hardlink"))
     ]
-    for i in range(ctx.n(4, 24)):
+    for i in range(ctx.n(4, 16)):
         files, dirs = gen_tree(ctx.rng, 3, 6, 1)
         if not any(files.values()):
             continue
